@@ -112,6 +112,29 @@ CHECKS["C20"] = dict(
     note="Trusts TLC and vf/networld.py; alphanumeric names/values; ambiguous same-name-in-two-covering-domains histories unjudged.",
     ref="4 C20")
 
+CHECKS["C01"] = dict(
+    engine="Codec+CodecMC+SendBatch",
+    technique="TLA+ frame definition (Codec.tla) with encoder/decoder cross-checked by TLC; TLC batch validation (SendBatch) of "
+              "every frame the real client writes, including the key-source draws and the return value",
+    text="Codec!Hdr/ClientFrame and the independently written Codec!Parse are checked against each other by TLC over opcodes x FIN x "
+         "length classes x keys; then every length 0..300, the +-3 neighbourhoods of 125/126 and 65535/65536, sampled lengths to 70000 "
+         "(thorough: every length 0..70000 and samples to 2 MiB), arbitrary Unicode text, bytes/bytearray, all APIs, the three key-source "
+         "kinds and trace logging on/off are executed and each frame is judged by TLC: header, shortest length form, mask bit, key on the "
+         "wire = the single 4-byte draw, XOR law, frame length, return value.",
+    note="For payloads above 512 bytes TLC checks header, key, length, return value and ~60 sampled positions; the remaining payload "
+         "positions are compared by the harness's independent decoder (boolean + digest in the event). Trusts TLC and vf/wire.py.",
+    ref="4 C01 / 5")
+CHECKS["C12"] = dict(
+    engine="Send+SendMC+TraceSend",
+    technique="TLC model checking of the send path with its lock (plus no-lock / resend-bug variants that must fail, and liveness) + "
+              "systematic schedule enumeration of the real library under a deterministic scheduler, traces validated by TLC (TraceSend)",
+    text="Send!SStep is a monitor over what reaches the transport; SendMC drives it with 3 sender threads and every short-write pattern and "
+         "checks WireIsWholeFrames, MutualExclusion, Termination, and that the model does see interleaving when the lock is removed; real "
+         "threads (2-4 senders, 2-3 receivers via recv() and recv_data(), a ping inside a fragmented message) run under a baton scheduler "
+         "whose choice points are enumerated depth-first with a preemption bound (random schedules beyond), with short writes and chunked reads.",
+    note="Preemption happens at blocking primitives only (lock acquire, transport send/recv); trusts TLC and vf/schedworld.py.",
+    ref="4 C12")
+
 NOT_YET = {}
 
 
